@@ -217,10 +217,110 @@ class SubmitModel:
         self.encoded |= I.called
         return obs
 
+    # ------------------------------------------------------------------ SubmitMulti (multishot stream)
+    def FS(self, name, sig_pat):
+        c = [f for k, f in self.fns.items() if k.startswith("future::stream::") and k.endswith("::" + name) and re.search(sig_pat, f.sig)]
+        if len(c) != 1:
+            raise Unsupported("cannot locate stream %s / %s (%d candidates)" % (name, sig_pat, len(c)))
+        return c[0]
+
+    def check_submit_multi(self, p):
+        W, I = self.world(p, True)
+        I.enums["State"] = {"Idle": 0, "Submitted": 1, "Finished": 2}
+        W.items, W.multi_polls, W.final = [], 0, None
+        me = self
+
+        def s_submit_raw(I_, a, pth, c):
+            W.submits.append(a[1])
+            if pth.choose(2, "submit_raw completes at once?") == 1:
+                W.final = ("final-result", "immediate")
+                return EnumV(1, [Cell(Struct({0: Cell(W.final), 1: Cell(a[1])}))])
+            W.next_key += 1
+            W.current_key = ("key", W.next_key)
+            return EnumV(0, [Cell(W.current_key)])
+
+        def s_poll_multishot(I_, a, pth, c):
+            k = a[2].cell.v if isinstance(a[2], Ref) else a[2]
+            W.multi_polls += 1
+            W.polls.append(k)
+            if pth.choose(2, "an intermediate result is queued?") == 1:
+                item = ("item", len(W.items))
+                W.items.append(item)
+                return EnumV(1, [Cell(item)])
+            return EnumV(0)
+
+        def s_poll_task_extra(I_, a, pth, c):
+            k = a[2]
+            W.polls.append(k)
+            if pth.choose(2, "operation finished?") == 1:
+                W.final = ("final-result", k)
+                W.current_key = None
+                return EnumV(1, [Cell(Struct({0: Cell(Struct({0: Cell(W.final), 1: Cell(W.op)})), 1: Cell(("extra-of", k))}))])
+            return EnumV(0, [Cell(k)])
+
+        import re as _re
+        I.summ = [(_re.compile(r"^submit_raw::<"), s_submit_raw), (_re.compile(r"^poll_multishot::<"), s_poll_multishot),
+                  (_re.compile(r"^poll_task_with_extra::<"), s_poll_task_extra)] + I.summ
+        I.resolver = lambda callee: (me.FS("project", r"_1: Pin<&mut future::stream::SubmitMulti<T>>") if ("SubmitMulti" in callee and callee.endswith("::project")) else
+                                     me.FS("submitted", r"_1: Key<T>") if _re.search(r"State::<.*>::submitted$|State::submitted$", callee) else None)
+        poll_fn = self.FS("poll_next", r"_1: Pin<&mut future::stream::SubmitMulti<T>>")
+        drop_fn = self.FS("__drop_inner", r"_1: Pin<&mut future::stream::SubmitMulti<T>>")
+        state0 = EnumV(1, [Cell(EnumV(0, [Cell(W.op)]))])
+        sub = Struct({0: Cell(Ref(Cell(("proactor",)))), 1: Cell(state0)})
+        pinned = Struct({0: Cell(Ref(Cell(sub)))})
+        cx = Ref(Cell(("ctx",)))
+        programs = [("next", "next", "next", "drop"), ("next", "drop"), ("drop",), ("next", "next", "next", "next")]
+        prog = programs[p.choose(len(programs), "program")]
+        obs = []
+        delivered = []
+        finished = False
+        for step in prog:
+            if step == "next":
+                npolls, nsub = len(W.polls), len(W.submits)
+                r = I.run_to_end(I.call_fn(poll_fn, [pinned, cx], p))
+                st = sub.f[1].v
+                inner = st.fields[0].v if (isinstance(st, EnumV) and st.variant == 1) else None
+                if finished:
+                    obs.append(("a finished stream yields None and asks the driver nothing more",
+                                z3.BoolVal(r.variant == 0 and r.fields[0].v.variant == 0 and len(W.polls) == npolls and len(W.submits) == nsub)))
+                    continue
+                if r.variant == 1:
+                    obs.append(("Pending: the stream keeps exactly the key the driver gave back",
+                                z3.BoolVal(inner is not None and inner.variant == 1 and inner.fields[0].v == W.current_key)))
+                else:
+                    item = r.fields[0].v
+                    if isinstance(item, EnumV) and item.variant == 1:
+                        v = item.fields[0].v
+                        if isinstance(v, tuple) and v[0] == "item":
+                            delivered.append(v)
+                            obs.append(("an intermediate result is yielded and the operation stays submitted under the same key",
+                                        z3.BoolVal(inner is not None and inner.variant == 1 and inner.fields[0].v == W.current_key)))
+                        else:
+                            finished = True
+                            got = v.f[0].v if isinstance(v, Struct) else v
+                            obs.append(("the final result is yielded exactly as the driver delivered it", z3.BoolVal(got == W.final)))
+                            obs.append(("after the final result the stream is Finished and holds the operation, not a key",
+                                        z3.BoolVal(inner is not None and inner.variant == 2)))
+                    else:
+                        obs.append(("None is only yielded by a finished stream", z3.BoolVal(False)))
+                obs.append(("the operation is submitted exactly once over the stream's life", z3.BoolVal(len(W.submits) == 1 and W.submits[0] == W.op)))
+            else:
+                key = W.current_key
+                I.run_to_end(I.call_fn(drop_fn, [pinned], p))
+                if key is not None and not finished:
+                    obs.append(("dropping a stream with a submitted operation cancels exactly that operation, once", z3.BoolVal(W.cancels == [key])))
+                else:
+                    obs.append(("dropping an idle or finished stream cancels nothing", z3.BoolVal(W.cancels == [])))
+        obs.append(("every intermediate result the driver had is yielded, once, in order", z3.BoolVal(delivered == W.items)))
+        if W.has_token and W.submits and W.next_key:
+            obs.append(("a cancel token in the context is registered with the submitted key, exactly once", z3.BoolVal(W.registered == [("key", 1)])))
+        self.encoded |= I.called
+        return obs
+
     def check_submit(self, p):
         return self.check_program(p, False)
 
     def check_submit_with_extra(self, p):
         return self.check_program(p, True)
 
-    CHECKS = ["submit", "submit_with_extra"]
+    CHECKS = ["submit", "submit_with_extra", "submit_multi"]
